@@ -193,6 +193,12 @@ func (fv *FV) zeroObject(e *Env, r Term, t types.Type) {
 		fv.storeCell(e, "bigval", nil, sInt, scalar(intLit(0)), r)
 		return
 	}
+	if a, ok := objArray(t); ok {
+		for i := int64(0); i < a.Len(); i++ {
+			fv.zeroObject(e, fv.elemAddr(a.Elem(), r, intLit(i)), a.Elem())
+		}
+		return
+	}
 	st := structOf(t)
 	if st == nil {
 		return
@@ -379,6 +385,10 @@ func (fv *FV) copyObject(e *Env, dst, src Term, t types.Type) {
 		fv.storeCell(e, "bigval", nil, sInt, fv.loadCell(e, "bigval", nil, sInt, src), dst)
 		return
 	}
+	if a, ok := objArray(t); ok {
+		fv.copyObjArray(e, a, dst, src)
+		return
+	}
 	st := structOf(t)
 	if st == nil {
 		return
@@ -393,10 +403,96 @@ func (fv *FV) copyObject(e *Env, dst, src Term, t types.Type) {
 	}
 }
 
+// copyObjArray copies the object array at src to dst (dst[i] = src[i] for all
+// i). Each leaf component C is replaced by a fresh C' with
+//   C'[G(dst,i)] = C[G(src,i)]            for 0 <= i < N
+//   C'[x] = C[x]                          for every x that is not some G(dst,i)
+// where G(b,i) is the leaf address inside element i of the array at b. The
+// second axiom recognises the addresses G(dst,i) through the inverse address
+// functions, so neighbouring arrays of the same element type are untouched.
+func (fv *FV) copyObjArray(e *Env, a *types.Array, dst, src Term) {
+	if e.dead {
+		return
+	}
+	if fv.spec != nil {
+		return
+	}
+	n := a.Len()
+	iv := Term{"i!ac", sInt}
+	xv := Term{"x!ac", sRef}
+	d0 := fv.elemAddr(a.Elem(), dst, iv)
+	s0 := fv.elemAddr(a.Elem(), src, iv)
+	eaName := "ea$" + sanitize(typeStr(a.Elem()))
+	// leaf: forward chain applied to an element address, inverse chain applied to x
+	type chain struct{ fwd func(Term) Term; inv func(Term) Term }
+	var walk func(t types.Type, c chain)
+	emit := func(comp, sort string, c chain) {
+		old := fv.heapGet(e, comp, arrSort(sRef, sort))
+		nn := fv.s.freshConst(comp, old.Sort)
+		gd, gs := c.fwd(d0), c.fwd(s0)
+		y := c.inv(xv)
+		idx := app(sInt, eaName+"^idx", y)
+		inRange := and(eq(app(sRef, eaName+"^arr", y), dst), le(intLit(0), idx), lt(idx, intLit(n)), eq(c.fwd(fv.elemAddr(a.Elem(), dst, idx)), xv))
+		fv.assume(e, Term{fmt.Sprintf("(forall ((i!ac Int)) (! (=> (and (<= 0 i!ac) (< i!ac %d)) (= (select %s %s) (select %s %s))) :pattern (%s)))", n, nn.S, gd.S, old.S, gs.S, d0.S), sBool})
+		fv.assume(e, Term{fmt.Sprintf("(forall ((x!ac Ref)) (! (=> (not %s) (= (select %s x!ac) (select %s x!ac))) :pattern ((select %s x!ac))))", inRange.S, nn.S, old.S, nn.S), sBool})
+		fv.heapSet(e, comp, nn)
+	}
+	walk = func(t types.Type, c chain) {
+		if isBigInt(t) {
+			emit("bigval", sInt, c)
+			return
+		}
+		if at, ok := objArray(t); ok {
+			// nested object arrays: fall back to unrolled element copies
+			for k := int64(0); k < n; k++ {
+				dk := c.fwd(fv.elemAddr(a.Elem(), dst, intLit(k)))
+				sk := c.fwd(fv.elemAddr(a.Elem(), src, intLit(k)))
+				fv.copyObjArray(e, at, dk, sk)
+			}
+			return
+		}
+		st := structOf(t)
+		if st == nil {
+			return
+		}
+		for i := 0; i < st.NumFields(); i++ {
+			f := st.Field(i)
+			tt, ff := t, f
+			if isObjectType(f.Type()) {
+				name := addrFun(tt, ff)
+				sub := chain{
+					fwd: func(b Term) Term { return fv.fieldAddr(tt, ff, c.fwd(b)) },
+					inv: func(x Term) Term { fv.fieldAddr(tt, ff, tNull); return c.inv(app(sRef, name+"^inv", x)) },
+				}
+				walk(f.Type(), sub)
+				continue
+			}
+			k, srt := sortOf(f.Type())
+			comp := fieldComp(t, f)
+			if k == kSlice {
+				emit(comp+"#arr", sRef, c)
+				emit(comp+"#off", sInt, c)
+				emit(comp+"#len", sInt, c)
+				emit(comp+"#cap", sInt, c)
+				continue
+			}
+			emit(comp, srt, c)
+		}
+	}
+	walk(a.Elem(), chain{fwd: func(b Term) Term { return b }, inv: func(x Term) Term { return x }})
+}
+
 // objectEq is fieldwise equality of two objects (spec use and ==).
 func (fv *FV) objectEq(e1 *Env, a Term, e2 *Env, b Term, t types.Type) Term {
 	if isBigInt(t) {
 		return eq(fv.loadComp(e1, "bigval", sInt, a), fv.loadComp(e2, "bigval", sInt, b))
+	}
+	if at, ok := objArray(t); ok {
+		var cs []Term
+		for i := int64(0); i < at.Len(); i++ {
+			cs = append(cs, fv.objectEq(e1, fv.elemAddr(at.Elem(), a, intLit(i)), e2, fv.elemAddr(at.Elem(), b, intLit(i)), at.Elem()))
+		}
+		return and(cs...)
 	}
 	st := structOf(t)
 	if st == nil {
@@ -1112,6 +1208,15 @@ func (fv *FV) sliceExpr(e *Env, x *ast.SliceExpr) Value {
 // array holding the same contents (writes through the slice are not
 // propagated back; noted).
 func (fv *FV) arrayAsSlice(e *Env, x ast.Expr, at *types.Array) Value {
+	if _, ok := objArray(fv.typeOf(x)); ok {
+		// an array of objects is addressed in place: the view shares the elements
+		lv := fv.lvalue(e, x)
+		if lv.kind == lvObject {
+			ln := intLit(at.Len())
+			return Value{K: kSlice, T: lv.addr, Off: intLit(0), Len: ln, Cap: ln, Type: types.NewSlice(at.Elem())}
+		}
+		return fv.freshValue(types.NewSlice(at.Elem()), "arrslice")
+	}
 	v := fv.expr(e, x)
 	es := elemSortOf(at.Elem())
 	if v.T.Sort == sBlob {
@@ -1247,6 +1352,12 @@ func (fv *FV) lvalue(e *Env, x ast.Expr) LV {
 			inner := fv.lvalue(e, x.X)
 			i := fv.expr(e, x.Index)
 			fv.bounds(e, x, i.T, intLit(u.Len()))
+			if _, ok := objArray(bt); ok {
+				if inner.kind == lvObject {
+					return LV{kind: lvObject, addr: fv.elemAddr(u.Elem(), inner.addr, i.T), typ: u.Elem()}
+				}
+				return LV{kind: lvUnknown, typ: u.Elem()}
+			}
 			return LV{kind: lvArrElem, inner: &inner, elemI: i.T, typ: u.Elem()}
 		case *types.Pointer:
 			if a, ok := u.Elem().Underlying().(*types.Array); ok {
